@@ -37,6 +37,7 @@ from vt import wfprog as WP
 
 LEVEL = "exploration"
 PREF = {"bool": True, "str": "v1", "int": 7, "float": 1.5, "file": "@v1.txt", "list": ["v1", "v2"], "multi": ["v1", "v2"]}
+TREE = [None]      # fingerprint of the pydra sources, taken before anything is pickled
 PARENT_SEED = int(os.environ.get("PYTHONHASHSEED", "0") or 0)
 
 
@@ -383,6 +384,9 @@ def judge_batch(part, batch: Path):
         origin = l.get("pydra")
         if origin and not origin.startswith(os.environ.get("VT_REPO", "/repo") + "/"):
             raise RuntimeError(f"child imported pydra from {origin}")
+        if "tree" in l and l["tree"] != TREE[0]:
+            raise RuntimeError("the pydra source tree changed while the check was running (parent and child interpreters "
+                               "imported different code): re-run")
     texts = []
     for g in exps:
         for e in g["exps"]:
@@ -407,6 +411,7 @@ def pipeline(ctx, descs, configs, warm, nproc, thorough=False):
     for d in ("", "ref", "c", "files"):
         (keep / d).mkdir(exist_ok=True)
     prepare.opts = dict(configs=configs, warm=warm, thorough=thorough)
+    TREE[0] = H.tree_fingerprint()
     items = list(enumerate(descs))
     chunk = max(1, min(60, len(items) // (nproc * 6) or 1))
     nchunks = -(-len(items) // chunk)
@@ -479,6 +484,7 @@ def replay(ctx, case):
     keep = ctx.scratch / "keep"
     for d in ("", "ref", "c", "files"):
         (keep / d).mkdir(exist_ok=True)
+    TREE[0] = H.tree_fingerprint()
     es, ex = prepare_one(0, case["task"], [case["config"]], [case.get("warm", True)], keep, True)
     if not es:
         return None
